@@ -309,6 +309,9 @@ def run(ctx):
             for a, b in PADS:
                 subjects.append(a + form + b)
     subjects += NEAR + NONSTR + ['%d', '%(val)s', '100%', '{0}']
+    # every documented word continued by one or several characters, or lacking its last one
+    for w in TRUE_WORDS + FALSE_WORDS:
+        subjects += [w + 'x', w + 'hood', w.upper() + 'S', w + '1', w[:-1] if len(w) > 1 else w + w]
     E.run(rep, 'bool', [subjects, [False, True], [True, False, None], [False, True]],
           with_lazy(_bool_case))
     bounds = [None, -1, 0, 10]
